@@ -154,6 +154,13 @@ def gen_plan(seed, cfg):
                 out_ops.append({'op': 'relink', 'to': linked})
             out_ops.append({'op': 'load', 'path': linked, 'via_link': True})
         ops = out_ops
+    # behaviour includes overrides: on some loads the same set_cells batch (inside the used range and past it) is given to
+    # the file-loaded executor and to the class-object executor, and everything is compared again.  The class object of
+    # one text is built once per run and shared by all executors that use it, as an application would.
+    for op in ops:
+        if op['op'] == 'load' and re_.random() < 0.4:
+            op['override'] = [[re_.randrange(3), re_.randrange(8), re_.choice([re_.randint(1, 50), 'ov', 2.5, True])]
+                              for _ in range(re_.choice([1, 1, 2]))]
     if swarm['relative']:
         for op in ops:
             if op['op'] in ('write', 'load') and re_.random() < 0.6:
@@ -161,9 +168,11 @@ def gen_plan(seed, cfg):
     return {'engine': NAME, 'seed': seed, 'swarm': swarm, 'variants': variants, 'n_paths': n_paths, 'ops': ops, 'env': core.gen_env(seed)}
 
 
-def _query_all(ex, spec, Cell):
+def _query_all(ex, spec, Cell, extra=()):
     out = {}
     cols, rows = wbgen.used_range(spec['sheets'][0])
+    for cc_, rr_, _v in extra:
+        cols, rows = max(cols, cc_ + 1), max(rows, rr_ + 1)
     for rr in range(rows + 1):
         for cc in range(cols + 1):
             try:
@@ -262,6 +271,7 @@ def run(req, ctx):
     current = {}      # path index -> (variant index, returned text)
     loaded_variant = {}   # path index -> variant index at last load (for the non-trivial rule)
     parser = Parser().disable_safety_check()
+    klass_by_text = {}
     log = []
     mism = []
     rewritten_and_reloaded = False
@@ -336,18 +346,38 @@ def run(req, ctx):
                 wb, text = current[j]
                 spec = plan['variants'][wb]
                 had_cache = _pyc_header(paths[j]) is not None
+                ov = op.get('override') or []
+
+                def behaviour(ex_):
+                    b = _query_all(ex_, spec, Cell)
+                    if ov:
+                        ex_.set_cells([Cell(0, c_, r_, v_) for c_, r_, v_ in ov])
+                        b['after_override'] = _query_all(ex_, spec, Cell, ov)
+                        try:
+                            g = ex_.get_sheet(0)
+                            b['after_override']['grid'] = [len(g), [len(row_) for row_ in g]]
+                        except Exception as e:
+                            b['after_override']['grid'] = outcome_of_exc(e)
+                    return b
+
                 try:
                     ex_file = Executor().set_executed_class(class_file=spelled(j, op))
-                    got = _query_all(ex_file, spec, Cell)
+                    got = behaviour(ex_file)
                 except Exception as e:
                     got = {'load': outcome_of_exc(e)}
-                ns_ = {}
                 try:
-                    exec(compile(text, '<class object>', 'exec'), ns_)
-                    ex_obj = Executor().set_executed_class(class_object=ns_['ExcelInPython'])
-                    want = _query_all(ex_obj, spec, Cell)
+                    if text not in klass_by_text:
+                        ns_ = {}
+                        exec(compile(text, '<class object>', 'exec'), ns_)
+                        klass_by_text[text] = ns_['ExcelInPython']
+                    else:
+                        probe('class_object_shared_by_several_executors')
+                    ex_obj = Executor().set_executed_class(class_object=klass_by_text[text])
+                    want = behaviour(ex_obj)
                 except Exception as e:
                     want = {'load': outcome_of_exc(e)}
+                if ov:
+                    probe('override_applied_to_both_routes')
                 if had_cache:
                     probe('load_with_cache_entry_present')
                 if swarm['write_bytecode'] and not swarm['pycache_blocked'] and _pyc_header(paths[j]) is not None and not had_cache:
@@ -412,6 +442,11 @@ def shrink(plan):
         for o in p['ops']:
             o.pop('rel', None)
         yield p
+    for i, o in enumerate(ops):
+        if o.get('override'):
+            p = copy.deepcopy(plan)
+            del p['ops'][i]['override']
+            yield p
     if any(o.get('via_link') for o in ops):
         p = copy.deepcopy(plan)
         for o in p['ops']:
